@@ -234,6 +234,16 @@ func c12Loosen(t *rapid.T, p *numgen.Program) {
 
 var hostileValues = []string{"", " ", "null", "true", "0", "-1", "1e3", "0x10", "1_000", "abc", "USD", "USD 1", "USD -1", "USD", "USD 1 2", " 1", "usd 1", "USD 1.5", "1/0", "0/0", "3/2", "200%", "50%", "1/3", "a:b", "a::b", "-a", "@a", "world", "é", "\x00", "99999999999999999999999999999999999999", "[USD 1]"}
 
+// values that are nasty for one declared type in particular (decoders differ per type)
+var hostileByPrefix = map[string][]string{
+	"n":   {"null", "", " ", "-", "+", "-0", "1e3", "1.0", "0x10", "1_0", "٣", "NaN", "Infinity", "true", "[]", "{}", "\"1\"", "99999999999999999999999999999999999999999999999999", " 7", "7 "},
+	"m":   {"null", "USD null", "null 1", "USD", "USD ", " 1", "USD  1", "USD 1 ", "USD\t1", "USD 1e3", "USD -0", "USD +1", "USD 0x1", "USD ٣", "usd 1", "USD/ 1", "USD 1 USD 2", "{}"},
+	"p":   {"null", "", "1/0", "0/0", "-1/2", "1/-2", "2/1", "200%", "-1%", "1e2%", "1/2/3", "%", "/", "0.5", "50 %", "٥٠%"},
+	"acc": {"null", "", ":", "a:", ":a", "a::b", "a b", "@a", "world:", "a\x00b", "é"},
+	"ast": {"null", "", "usd", "USD/", "/2", "USD/1234567", "U SD", "USD/-1", "1USD"},
+	"s":   {"null", "\x00", "\"", "\\"},
+}
+
 func c12LoosenEnv(t *rapid.T, env *numgen.Env) {
 	names := make([]string, 0, len(env.Vars))
 	for k := range env.Vars {
@@ -244,8 +254,16 @@ func c12LoosenEnv(t *rapid.T, env *numgen.Env) {
 		switch rapid.IntRange(0, 7).Draw(t, "envMut") {
 		case 0:
 			delete(env.Vars, k)
-		case 1, 2:
+		case 1:
 			env.Vars[k] = rapid.SampledFrom(hostileValues).Draw(t, "hv")
+		case 2, 3:
+			// variable names carry their declared type (acc1, ast2, n3, s4, m5, p6)
+			prefix := strings.TrimRight(k, "0123456789")
+			if vals, ok := hostileByPrefix[prefix]; ok {
+				env.Vars[k] = rapid.SampledFrom(vals).Draw(t, "hvTyped")
+			} else {
+				env.Vars[k] = rapid.SampledFrom(hostileValues).Draw(t, "hv")
+			}
 		}
 	}
 	if rapid.IntRange(0, 3).Draw(t, "extraBinding") == 0 {
@@ -336,7 +354,7 @@ func TestC12(t *testing.T) {
 			return
 		}
 		cs := numgen.GenTyped(rt, cfg)
-		mode := rapid.SampledFrom([]string{"typed", "loose-ast", "loose-ast", "loose-ast", "loose-env", "token-mut", "token-mut", "splice", "deep", "revisit"}).Draw(rt, "mode")
+		mode := rapid.SampledFrom([]string{"typed", "loose-ast", "loose-ast", "loose-ast", "loose-env", "token-mut", "token-mut", "splice", "deep", "revisit", "typed-binding"}).Draw(rt, "mode")
 		text := cs.Text
 		switch mode {
 		case "loose-ast":
@@ -354,6 +372,21 @@ func TestC12(t *testing.T) {
 			cut := rapid.IntRange(0, len(text)).Draw(rt, "cut")
 			cut2 := rapid.IntRange(0, len(other.Text)).Draw(rt, "cut2")
 			text = text[:cut] + other.Text[cut2:]
+		case "typed-binding":
+			// one declared variable of each type in turn, bound to a value that is nasty for that type's decoder
+			ty := rapid.SampledFrom([]string{"number", "monetary", "portion", "account", "asset", "string"}).Draw(rt, "tbType")
+			prefix := map[string]string{"number": "n", "monetary": "m", "portion": "p", "account": "acc", "asset": "ast", "string": "s"}[ty]
+			val := rapid.SampledFrom(append(append([]string{}, hostileByPrefix[prefix]...), hostileValues...)).Draw(rt, "tbValue")
+			use := map[string]string{
+				"number":   "set_tx_meta(\"k\", $v)\n",
+				"monetary": "send $v (\n source = @world\n destination = @b\n)\n",
+				"portion":  "send [USD 10] (\n source = @world\n destination = {\n  $v to @b\n  remaining to @c\n }\n)\n",
+				"account":  "send [USD 1] (\n source = @world\n destination = $v\n)\n",
+				"asset":    "send [$v 1] (\n source = @world\n destination = @b\n)\n",
+				"string":   "set_tx_meta(\"k\", $v)\n",
+			}[ty]
+			text = "vars {\n " + ty + " $v\n}\nsend [USD 1] (\n source = @world\n destination = @b\n)\n" + use
+			cs.Env = &numgen.Env{Vars: map[string]string{"v": val}, Balances: map[string]map[string]*big.Int{}, Meta: map[string]map[string]string{}, ReqMeta: map[string]string{}}
 		case "revisit":
 			// one account is saved, credited and debited within the same script: every VM structure that
 			// tracks a balance is written several times for the same (account, asset)
